@@ -63,7 +63,8 @@ func (c *c11sConn) take() []byte {
 
 type c11sSession struct {
 	ext bool // the peer's OPEN carries the Extended Message capability
-	ap  bool // the peer's OPEN carries ADD-PATH receive for IPv4 unicast
+	ap  bool // the peer's OPEN carries ADD-PATH with the receive bit for IPv4 unicast (we may send ids)
+	aps bool // ... with the send bit (we negotiated receive; nothing changes on what we send)
 }
 
 func c11sOpen(s c11sSession) *bgp.BGPMessage {
@@ -74,8 +75,15 @@ func c11sOpen(s c11sSession) *bgp.BGPMessage {
 	if s.ext {
 		caps = append(caps, bgp.NewCapExtendedMessage())
 	}
-	if s.ap {
-		caps = append(caps, bgp.NewCapAddPath([]*bgp.CapAddPathTuple{bgp.NewCapAddPathTuple(bgp.RF_IPv4_UC, bgp.BGP_ADD_PATH_RECEIVE)}))
+	if s.ap || s.aps {
+		m := bgp.BGP_ADD_PATH_NONE
+		if s.ap {
+			m |= bgp.BGP_ADD_PATH_RECEIVE
+		}
+		if s.aps {
+			m |= bgp.BGP_ADD_PATH_SEND
+		}
+		caps = append(caps, bgp.NewCapAddPath([]*bgp.CapAddPathTuple{bgp.NewCapAddPathTuple(bgp.RF_IPv4_UC, m)}))
 	}
 	msg, _ := bgp.NewBGPOpenMessage(65002, 0, netip.MustParseAddr("10.0.0.2"),
 		[]bgp.OptionParameterInterface{bgp.NewOptionParameterCapability(caps)})
@@ -353,11 +361,13 @@ func (w *c11sWorld) session(name string, h *fsmHandler, conn *c11sConn, hist []c
 
 	// model ops
 	o.op("reset")
-	if ap {
-		o.op("opts %d 1 0", c11sB(cur.ext))
+	// negotiated mode for IPv4 unicast: send iff the peer receives, receive iff the peer sends
+	if mode := 2*c11sB(cur.ap) + c11sB(cur.aps); mode != 0 {
+		o.op("opts %d 1 0 %d", c11sB(cur.ext), mode)
 	} else {
 		o.op("opts %d 0", c11sB(cur.ext))
 	}
+	o.stat(fmt.Sprintf("session_addpath_mode%d", 2*c11sB(cur.ap)+c11sB(cur.aps)), 1)
 	paths := make([]*table.Path, 0, len(items))
 	for _, it := range items {
 		paths = append(paths, it.path)
@@ -395,7 +405,7 @@ func (w *c11sWorld) session(name string, h *fsmHandler, conn *c11sConn, hist []c
 	detail := func(extra map[string]any) map[string]any {
 		hs := []string{}
 		for _, s := range hist {
-			hs = append(hs, fmt.Sprintf("OPEN(ext=%v,addpath-rx=%v)", s.ext, s.ap))
+			hs = append(hs, fmt.Sprintf("OPEN(ext=%v,addpath-rx=%v,addpath-tx=%v)", s.ext, s.ap, s.aps))
 		}
 		extra["scenario"] = name
 		extra["sessions_on_this_fsm"] = hs
@@ -561,7 +571,7 @@ func (w *c11sWorld) scenario(name string, seq []c11sSession) {
 		neigh := &oc.Neighbor{AfiSafis: []oc.AfiSafi{{
 			Config:   oc.AfiSafiConfig{AfiSafiName: oc.AFI_SAFI_TYPE_IPV4_UNICAST, Enabled: true},
 			State:    oc.AfiSafiState{AfiSafiName: oc.AFI_SAFI_TYPE_IPV4_UNICAST, Enabled: true, Family: bgp.RF_IPv4_UC},
-			AddPaths: oc.AddPaths{Config: oc.AddPathsConfig{SendMax: 4}, State: oc.AddPathsState{SendMax: 4}},
+			AddPaths: oc.AddPaths{Config: oc.AddPathsConfig{SendMax: 4, Receive: true}, State: oc.AddPathsState{SendMax: 4, Receive: true}},
 		}}}
 		f := newFSM(&oc.Global{}, neigh, bgp.BGP_FSM_IDLE, slog.New(slog.DiscardHandler))
 		f.conn = conn
@@ -584,7 +594,7 @@ func TestVerifC11Server(t *testing.T) {
 	for i := range w.filler {
 		w.filler[i] = byte(i*5 + 3)
 	}
-	all := []c11sSession{{false, false}, {true, false}, {false, true}, {true, true}}
+	all := []c11sSession{{false, false, r.chance(50)}, {true, false, r.chance(50)}, {false, true, r.chance(50)}, {true, true, r.chance(50)}}
 	rounds := 2
 	if o.thorough {
 		rounds = 10
@@ -599,7 +609,7 @@ func TestVerifC11Server(t *testing.T) {
 		// three sessions: every order of the Extended Message capability, ADD-PATH at random
 		for m := 0; m < 8; m++ {
 			w.scenario("three_sessions", []c11sSession{
-				{m&1 != 0, r.chance(50)}, {m&2 != 0, r.chance(50)}, {m&4 != 0, r.chance(50)}})
+				{m&1 != 0, r.chance(50), r.chance(50)}, {m&2 != 0, r.chance(50), r.chance(50)}, {m&4 != 0, r.chance(50), r.chance(50)}})
 		}
 	}
 }
